@@ -301,4 +301,210 @@ Proof.
   destruct Hp2in as [->|Hin]; [exact Hd2e|]. apply in_snd_combine in Hin. intros ->. apply Hne. auto.
 Qed.
 
+(** ** swap_edge: six 1-unsews and six 1-sews on the darts of the two triangles *)
+Lemma wnu_data {X} (p : prog X) : writes_in Sdata p -> writes_in Snu p.
+Proof. apply Sdata_Snu. Qed.
+
+Lemma wi_one_sew ks l r : writes_in Snu (one_sew n ks l r).
+Proof.
+  unfold one_sew. apply writes_in_bind; [cbn; intros; exact I|]. intros b2l.
+  destruct (b2l =? 0); [apply wi_one_link|].
+  apply writes_in_bind; [apply wi_vertex_id|]. intros ?. apply writes_in_bind; [apply wi_vertex_id|]. intros ?.
+  apply writes_in_bind; [apply wi_one_link|]. intros ?. apply writes_in_bind; [apply wi_vertex_id|]. intros ?.
+  apply writes_in_bind; [apply wnu_data, wi_vertices_merge|]. intros ?. apply wnu_data, wi_merge_attributes.
+Qed.
+Lemma wi_one_unsew ks l : writes_in Snu (one_unsew n ks l).
+Proof.
+  unfold one_unsew. apply writes_in_bind; [cbn; intros; exact I|]. intros b2l.
+  destruct (b2l =? 0); [apply wi_one_unlink|].
+  apply writes_in_bind; [cbn; intros; exact I|]. intros ?. apply writes_in_bind; [apply wi_vertex_id|]. intros ?.
+  apply writes_in_bind; [apply wi_one_unlink|]. intros ?. apply writes_in_bind; [apply wi_vertex_id|]. intros ?.
+  apply writes_in_bind; [apply wi_vertex_id|]. intros ?.
+  apply writes_in_bind; [apply wnu_data, wi_vertices_split|]. intros ?. apply wnu_data, wi_split_attributes.
+Qed.
+
+Lemma inv_one_sew ks l r : ok l -> ok r -> triple E Inv (one_sew n ks l r) (fun _ => Inv) anyf.
+Proof.
+  intros Hl Hr. apply (core_inv _ (fun w => okd n w l /\ okd n w r)); [apply wi_one_sew| |apply triple_one_sew].
+  intros w HI. split; eapply ok_now; eauto.
+Qed.
+Lemma inv_one_unsew ks l : ok l -> triple E Inv (one_unsew n ks l) (fun _ => Inv) anyf.
+Proof.
+  intros Hl. apply (core_inv _ (fun w => okd n w l)); [apply wi_one_unsew| |apply triple_one_unsew].
+  intros w HI. eapply ok_now; eauto.
+Qed.
+
+Lemma wi_restore_vertex d ov : writes_in Sdata (restore_vertex n d ov).
+Proof.
+  unfold restore_vertex. destruct ov; [|exact I]. apply writes_in_bind; [apply wi_vertex_id|]. intros ?. cbn. intros; repeat split; exact I.
+Qed.
+Lemma wi_restore_anchor d oa : writes_in Sdata (restore_anchor n d oa).
+Proof.
+  unfold restore_anchor. apply writes_in_bind; [apply wi_vertex_id|]. intros ?.
+  destruct oa; cbn; intros; repeat split; exact I.
+Qed.
+
+Lemma triple_rd_T2 {Y} i d (f : N -> prog Y) (T : store -> Prop) (T' : N -> store -> Prop) Qd :
+  i < 3 -> ok d -> (forall w, Inv w -> T w -> T' (beta w i d) w) ->
+  (forall x, (x = 0 \/ (ok x /\ (i = 2 -> x <> d))) -> triple E (fun w => Inv w /\ T' x w) (f x) Qd anyf) ->
+  triple E (fun w => Inv w /\ T w) (x <- rdB i d ;; f x) Qd anyf.
+Proof.
+  intros Hi Hd HT Hf c w cnt o w' cnt' (HI & HTw) Hr. cbn [run bind rdB] in Hr.
+  destruct (e_dom E (XBeta i d)); [|injection Hr as <- <- <-; exact I].
+  fold (beta w i d) in Hr.
+  exact (Hf _ (read_ok i d w Hi HI Hd) c w cnt o w' cnt' (conj HI (HT w HI HTw)) Hr).
+Qed.
+
+Lemma inv_data {X} (p : prog X) : writes_in Sdata p -> triple E Inv p (fun _ => Inv) anyf.
+Proof.
+  intros Hw. eapply triple_conseq; [| | |apply (triple_data_inv True p Hw)].
+  - intros w A. split; [exact A|exact I].
+  - intros x w [A _]. exact A.
+  - auto.
+Qed.
+
+(* unsewing the null dart never succeeds: a kernel that reaches it fails as a whole *)
+Definition never {X} : X -> store -> Prop := fun _ _ => False.
+Lemma unsew_null ks : triple E Inv (one_unsew n ks 0) never anyf.
+Proof.
+  intros c w cnt o w' cnt' ([W1 _ _ _ _ _] & _) Hr. unfold one_unsew in Hr. cbn [run bind rdB] in Hr.
+  destruct (e_dom E (XBeta 2 0)); [|injection Hr as <- <- <-; exact I].
+  fold (beta w 2 0) in Hr. rewrite (W1 2 ltac:(lia)) in Hr. cbn [N.eqb] in Hr.
+  change (0 =? 0) with true in Hr. cbv iota in Hr.
+  unfold one_unlink_core in Hr. cbn [run bind rdB wrB] in Hr.
+  destruct (e_dom E (XBeta 1 0)); [|injection Hr as <- <- <-; exact I].
+  fold (beta w 1 0) in Hr. rewrite (W1 1 ltac:(lia)) in Hr. cbn [run] in Hr.
+  change (0 =? 0) with true in Hr. cbv iota in Hr. cbn [run] in Hr. injection Hr as <- <- <-. exact I.
+Qed.
+Lemma triple_never {X Y} (p : prog Y) (Qd : Y -> store -> Prop) (x : X) :
+  triple E (@never X x) p Qd anyf.
+Proof. intros c w cnt o w' cnt' []. Qed.
+
+(* one unsew in a sequence: a null dart ends the proof, otherwise the dart is in use from here on *)
+Ltac unsew_step ks H :=
+  let Z := fresh "Z" in let A := fresh "Hok" in
+  destruct H as [Z|[A _]];
+  [ rewrite Z; eapply triple_bind; [apply unsew_null|intros ?; apply triple_never]
+  | eapply triple_bind with (Qm := fun _ => Inv); [apply (inv_one_unsew ks); exact A|intros ?] ].
+
+Ltac seq_inv L := eapply triple_bind with (Qm := fun _ => Inv); [apply L; assumption|intros ?].
+Ltac tdatI := eapply triple_bind; [apply (triple_data_inv True); first [apply wi_vertex_id | (cbn; intros; exact I) | (unfold opt_anchor; destruct (has_kind _ _); cbn; intros; exact I)]|intros ?; cbv beta].
+
+(** a swap that terminates normally keeps the map well formed -- whatever surrounds the edge *)
+Theorem swap_edge_wf ks e c cnt w' cnt' :
+  wf2 n w0 -> ok e ->
+  run E (swap_edge n ks e) c w0 cnt = (Done tt, w', cnt') -> wf2 n w'.
+Proof.
+  intros W0 He Hr.
+  assert (HT : triple E (fun w => Inv w /\ True) (swap_edge n ks e) (fun _ w => Inv w /\ True) anyf).
+  2:{ pose proof (HT c w0 cnt _ _ _ (conj (conj W0 (fun d => eq_refl)) I) Hr) as Hq. apply Hq. }
+  clear Hr.
+  unfold swap_edge. destruct (e =? 0); [tfail|].
+  apply triple_rd; [lia|exact He|]. intros r Hr.
+  destruct (N.eqb_spec r 0) as [Zr|Nr]; [tfail|].
+  destruct Hr as [Z|[Hokr _]]; [contradiction|].
+  apply triple_rd; [lia|exact He|]. intros b1l Hb1l.
+  apply triple_rd; [lia|exact Hokr|]. intros b1r Hb1r.
+  apply triple_rd; [lia|exact He|]. intros b0l Hb0l.
+  apply triple_rd; [lia|exact Hokr|]. intros b0r Hb0r.
+  (* the reads of the topology test go through darts that may be null: plain reads *)
+  eapply triple_bind with (Qm := fun _ w => Inv w /\ True).
+  { apply (triple_data_inv True). cbn. intros; exact I. }
+  intros x.
+  eapply triple_bind with (Qm := fun _ w => Inv w /\ True).
+  { destruct (negb (x =? b0l)); [apply triple_ret'; auto|].
+    eapply triple_bind with (Qm := fun _ w => Inv w /\ True); [apply (triple_data_inv True); cbn; intros; exact I|].
+    intros y. apply triple_ret'; auto. }
+  intros bad. destruct bad; [tfail|].
+  tdatI. tdatI. tdatI. tdatI. tdatI. tdatI. tdatI. tdatI. tdatI. tdatI. tdatI. tdatI.
+  eapply triple_conseq with (P := Inv) (Qd := fun _ => Inv) (Qf := anyf); [intros w [A _]; exact A|intros ? w A; split; [exact A|exact I]|auto|].
+  eapply triple_bind with (Qm := fun _ => Inv); [apply (inv_one_unsew ks); exact He|intros ?].
+  eapply triple_bind with (Qm := fun _ => Inv); [apply (inv_one_unsew ks); exact Hokr|intros ?].
+  unsew_step ks Hb0l. unsew_step ks Hb0r. unsew_step ks Hb1l. unsew_step ks Hb1r.
+  seq_inv (inv_one_sew ks). seq_inv (inv_one_sew ks). seq_inv (inv_one_sew ks).
+  seq_inv (inv_one_sew ks). seq_inv (inv_one_sew ks). seq_inv (inv_one_sew ks).
+  eapply triple_bind with (Qm := fun _ => Inv); [apply inv_data, wi_restore_vertex|intros ?].
+  eapply triple_bind with (Qm := fun _ => Inv); [apply inv_data, wi_restore_vertex|intros ?].
+  eapply triple_bind with (Qm := fun _ => Inv); [apply inv_data, wi_restore_vertex|intros ?].
+  eapply triple_bind with (Qm := fun _ => Inv); [apply inv_data, wi_restore_vertex|intros ?].
+  destruct (has_kind ks KVA); [|apply triple_ret'; auto].
+  eapply triple_bind with (Qm := fun _ => Inv); [apply inv_data, wi_restore_anchor|intros ?].
+  eapply triple_bind with (Qm := fun _ => Inv); [apply inv_data, wi_restore_anchor|intros ?].
+  eapply triple_bind with (Qm := fun _ => Inv); [apply inv_data, wi_restore_anchor|intros ?].
+  apply inv_data, wi_restore_anchor.
+Qed.
+
+(** ** cut_outer_edge *)
+Lemma with_frame {X} (p : prog X) (S : var -> Prop) (T : store -> Prop) :
+  writes_in S p -> (forall w w', (forall v, ~ S v -> w' v = w v) -> T w -> T w') ->
+  triple E Inv p (fun _ => Inv) anyf ->
+  triple E (fun w => Inv w /\ T w) p (fun _ w => Inv w /\ T w) anyf.
+Proof.
+  intros Hw HT Ht c w cnt o w' cnt' (HI & Tw) Hr.
+  pose proof (Ht c w cnt o w' cnt' HI Hr) as Hq. destruct o as [x|e| |q]; try exact I.
+  split; [exact Hq|]. eapply HT; [|exact Tw]. intros v Hv. eapply writes_in_run; eauto.
+Qed.
+Lemma triple_retry {X} (P : store -> Prop) (Qd : X -> store -> Prop) : triple E P (@Retry _ X) Qd anyf.
+Proof. intros c w cnt o w' cnt' _ Hr. cbn in Hr. injection Hr as <- <- <-. exact I. Qed.
+
+Lemma wi_two_link_at l r : writes_in (fun v => v = XBeta 2 l \/ v = XBeta 2 r) (two_link_core l r).
+Proof. unfold two_link_core. cbn. intros. destruct (negb _); cbn; auto. intros. destruct (negb _); cbn; auto. Qed.
+Lemma wi_one_link_at l r : writes_in (fun v => v = XBeta 1 l \/ v = XBeta 0 r) (one_link_core l r).
+Proof. unfold one_link_core. cbn. intros. destruct (negb _); cbn; auto. intros. destruct (negb _); cbn; auto. Qed.
+
+Lemma wi_reattach ks a x y : writes_in Sdata (reattach_face_anchor n ks a x y).
+Proof.
+  unfold reattach_face_anchor. destruct a as [a|]; [|exact I].
+  apply writes_in_bind; [apply wi_face_id|]. intros ?. apply writes_in_bind; [apply wi_face_id|]. intros ?.
+  apply writes_in_bind; [cbn; intros; repeat split; exact I|]. intros ?.
+  apply writes_in_bind; [cbn; intros; repeat split; exact I|]. intros ?.
+  destruct (has_kind ks KEA); [|exact I].
+  apply writes_in_bind; [apply wi_edge_id|]. intros ?. cbn. intros; repeat split; exact I.
+Qed.
+
+Ltac tdatT T := eapply triple_bind; [apply (triple_data_T T); [first [apply wi_vertex_id | (cbn; intros; exact I) | (unfold opt_anchor; destruct (has_kind _ _); cbn; intros; exact I)]|assumption]|intros ?; cbv beta].
+
+Definition Tb0 (e : N) (w : store) : Prop := beta w 0 e <> 0.
+Lemma topo_Tb0 e : topo (Tb0 e).
+Proof. intros w w' Ht [Hb _]. unfold Tb0 in *. rewrite Hb. exact Ht. Qed.
+
+Theorem cut_outer_edge_wf ks e nd1 nd2 nd3 c cnt w' cnt' :
+  wf2 n w0 -> ok e -> ok nd1 -> ok nd2 -> ok nd3 -> nd1 <> nd2 -> e <> nd3 -> beta w0 0 e <> 0 ->
+  run E (cut_outer_edge n ks e nd1 nd2 nd3) c w0 cnt = (Done tt, w', cnt') -> wf2 n w'.
+Proof.
+  intros W0 He H1 H2 H3 H12 He3 Hb0 Hr.
+  assert (HT : triple E (fun w => Inv w /\ Tb0 e w) (cut_outer_edge n ks e nd1 nd2 nd3) (fun _ w => Inv w) anyf).
+  2:{ pose proof (HT c w0 cnt _ _ _ (conj (conj W0 (fun d => eq_refl)) Hb0) Hr) as Hq. apply Hq. }
+  clear Hr. pose proof (topo_Tb0 e) as HtT.
+  unfold cut_outer_edge.
+  eapply triple_bind.
+  { apply (with_frame _ _ (Tb0 e) (wi_two_link_at nd1 nd2)); [|apply inv_two_link; assumption].
+    intros w w1 Hv Tw. unfold Tb0, beta in *. rewrite Hv; [exact Tw|]. intros [A|A]; discriminate A. }
+  intros ?. cbv beta.
+  eapply triple_bind.
+  { apply (with_frame _ _ (Tb0 e) (wi_one_link_at nd2 nd3)); [|apply inv_one_link; assumption].
+    intros w w1 Hv Tw. unfold Tb0, beta in *. rewrite Hv; [exact Tw|]. intros [A|A]; [discriminate A|]. injection A as A. congruence. }
+  intros ?. cbv beta.
+  eapply triple_bind.
+  { apply (triple_data_T (Tb0 e)); [|exact HtT]. unfold opt_anchor. destruct (has_kind ks KFA); [|exact I].
+    apply writes_in_bind; [apply wi_face_id|]. intros ?. cbn. intros; repeat split; exact I. }
+  intros fa. cbv beta.
+  tdatT (Tb0 e).
+  apply (triple_rd_T 0 e _ _ (fun x => x <> 0)); [lia|exact He|intros w _ A; exact A|]. intros b0ld Hb0ld Nb0.
+  destruct Hb0ld as [Z|[Hokb0 _]]; [contradiction|].
+  apply (triple_rd_T 1 e _ _ (fun _ => True)); [lia|exact He|auto|]. intros b1ld Hb1ld _.
+  tdatT (Tb0 e). tdatT (Tb0 e). tdatT (Tb0 e). tdatT (Tb0 e).
+  match goal with |- triple _ _ (match ?a with _ => _ end) _ _ => destruct a as [v1|]; [|apply triple_retry] end.
+  match goal with |- triple _ _ (match ?a with _ => _ end) _ _ => destruct a as [v2|]; [|apply triple_retry] end.
+  tdatT (Tb0 e).
+  eapply triple_bind; [apply (triple_data_T (Tb0 e)); [cbn; intros; repeat split; exact I|exact HtT]|intros ?; cbv beta].
+  eapply triple_conseq with (P := Inv) (Qd := fun _ => Inv) (Qf := anyf); [intros w [A _]; exact A|auto|auto|].
+  eapply triple_bind with (Qm := fun _ => Inv); [apply (inv_one_unsew ks); exact He|intros ?].
+  unsew_step ks Hb1ld.
+  seq_inv (inv_one_sew ks). seq_inv (inv_one_sew ks). seq_inv (inv_one_sew ks). seq_inv (inv_one_sew ks).
+  eapply triple_bind with (Qm := fun _ => Inv); [apply inv_data, wi_reattach|intros ?].
+  match goal with |- triple _ _ (match ?a with _ => _ end) _ _ => destruct a end; [|apply triple_ret'; auto].
+  apply inv_data. apply writes_in_bind; [apply wi_vertex_id|]. intros ?. cbn. intros; repeat split; exact I.
+Qed.
+
 End KernWf.
